@@ -303,10 +303,13 @@ def run(ctx):
     ctx.pmap(me, "pair_batch", pair_items(), chunk=4)
     ctx.pmap(me, "pair_batch", pair_items(), chunk=8, symlinked=True)
     ctx.pmap(me, "all_batch", all_items(2) + all_items(3), offsets=list(range(0, NSPELL, 2)) if quick else list(range(NSPELL)))
+    if not quick:
+        # four targets over the three files, one spelling rotation, every definition order
+        ctx.pmap(me, "all_batch", all_items(4), offsets=[1], chunk=64)
     ctx.pmap(me, "cli_batch", [it for it in pair_items() if quick is False or it[0] in (0, 2)], chunk=4)
     ctx.rule = ("pair: (file, output spelling, input spelling, both working dirs abs/relative, shape, definition order); all: (role assignment of 3 files "
                 "to n<=3 targets, spelling rotation offset, definition permutation); non-trivial = the reference relation has >=1 dependency edge")
-    ctx.bound = dict(spellings=NSPELL, files=3, n=3, shapes=len(SHAPES), offsets=4 if quick else 8)
+    ctx.bound = dict(spellings=NSPELL, files=3, n=3 if quick else 4, shapes=len(SHAPES), offsets=4 if quick else 8)
     ctx.assumptions = ["lexical normalisation (a working directory reached through a symbolic link keeps the link's name), no leading '//' (POSIX leaves it implementation-defined)"]
 
 
